@@ -135,7 +135,10 @@ SUITES = {
         # repeated ids and two declarations per message); thorough adds a second extension round and the
         # pre-commit / ProveCommitSectors3 path
         mc=[dict(module="MC_Claims", cfg=tiered("MC_Claims.cfg", "MC_Claims_thorough.cfg"),
-                 timeout=tiered(1500, 3 * 3600), workers=4)],
+                 timeout=tiered(1500, 3 * 3600), workers=4),
+            # the pre-commit / ProveCommitSectors3 path (sectors live 2953 epochs): one / two allocations
+            dict(module="MC_Claims", cfg=tiered("MC_Claims_pcq.cfg", "MC_Claims_pc.cfg"),
+                 timeout=tiered(900, 3600), workers=4)],
         sim=dict(module="MC_Claims", cfg="Sim_Claims.cfg", num=tiered(12, 36), depth=30),
         tour_cap=tiered(220, 3000),
         driver="claims",
